@@ -1,6 +1,7 @@
 (* Props/C03.v — theorems backing property C03 (point-charge integrals exact). *)
 From Coq Require Import List Arith.
-From GB Require Import Base.Field Gauss.Moment1D Gauss.SPoly.
+From GB Require Import Base.Field Base.FNum Base.Tables Gauss.Moment1D Gauss.SPoly
+  Model.Shell Model.OneElec Model.OneBody Proofs.OneElecP.
 
 (* The vertical recursion with auxiliary index m (one axis), for ANY sequence beta
    (beta m stands for (2 pi/p) K_AB F_m(p|PC|^2); no property of the Boys function is
@@ -31,3 +32,290 @@ Theorem C03_vrr_locality :
   Vf K pa pc v b1 a m = Vf K pa pc v b2 a m.
 Proof. exact (fun F K pa pc v b1 b2 a m H => proj1 (Vf_local K pa pc v b1 b2 a m H)). Qed.
 Print Assumptions C03_vrr_locality.
+
+(* ================================================================== *)
+(* Round 2: the list-level executable model (Model/OneElec.v, Model/OneBody.v) tied to the   *)
+(* abstract theory above.  All statements hold for every L, every index, every exponent and   *)
+(* centre (induction, no bound).  Definitions used in the statements (Proofs/OneElecP.v):      *)
+(*   col v0 c m      = entry c of row m of the input table of a pass                           *)
+(*   vpass_g .. g    = the model's pass with the never-written row m = L filled by ANY g       *)
+(*   P3 .. ax ay az  = Pc_x ax * Pc_y ay * Pc_z az  (pmul)                                     *)
+(*   Hf ab T b a     : H(0,a) = T a, H(b+1,a) = H(b,a+1) + ab H(b,a);  H3 = Hf on z of y of x  *)
+(*   Hbin            = sum_{k<=b} pasc b k * ab^(b-k) * T(a+k),  pasc = Pascal's triangle      *)
+(*   Pab .. a b      = polynomial in s obtained by the same transfer from Pc                   *)
+(*   prim_poly       = Pab_x * Pab_y * Pab_z for one primitive pair and one component pair     *)
+(*   one_elec_spec   = sum over primitives of b and a of  norm * coefficient *                  *)
+(*                     Phi_0^{beta(alpha,beta)} (prim_poly), times 1/sqrt((2a-1)!!..) factors   *)
+(* ================================================================== *)
+
+(* 1. One vertical pass of the model (vstep / vpass, written once, used for x, y, z): the list
+   entry (a, m) of channel c, inside the validity region m + a <= L, is the abstract recursion
+   Vf applied to the input column of that channel. *)
+Theorem C03_vpass_entry :
+  forall (F : Type) (K : Fops F), is_field K ->
+  forall (L : nat) (pa pc twop : F) (v0 : list (list F)) (w a m c : nat),
+  (forall m0, m0 <= L -> length (nth m0 v0 nil) = w) ->
+  m + a <= L -> c < w ->
+  nth c (nth m (nth a (vpass K L pa pc twop v0) nil) nil) (f0 K)
+  = Vf K pa pc (fdiv K (f1 K) twop) (col K v0 c) a m.
+Proof. exact (@vpass_entry). Qed.
+Print Assumptions C03_vpass_entry.
+
+(* ... and valid entries never read the row m = L (NumPy slices [:-1]; the model keeps zeros
+   there): replacing that row, at every step, by the value of an ARBITRARY function g of the step
+   index and the current row changes no entry with m + a <= L. *)
+Theorem C03_vpass_last_row_irrelevant :
+  forall (F : Type) (K : Fops F), is_field K ->
+  forall (L : nat) (pa pc twop : F) (v0 : list (list F)) (w : nat)
+         (g : nat -> list F -> list F) (a m c : nat),
+  (forall m0, m0 <= L -> length (nth m0 v0 nil) = w) ->
+  m + a <= L -> c < w ->
+  nth c (nth m (nth a (vpass K L pa pc twop v0) nil) nil) (f0 K)
+  = nth c (nth m (nth a (vpass_g K L pa pc twop g v0) nil) nil) (f0 K).
+Proof. exact (@vpass_last_row_irrelevant). Qed.
+Print Assumptions C03_vpass_last_row_irrelevant.
+
+(* Vf a m reads beta exactly at m .. m + a (tight version of C03_vrr_locality). *)
+Theorem C03_vrr_locality_tight :
+  forall (F : Type) (K : Fops F) (pa pc v : F) (b1 b2 : nat -> F) (a m : nat),
+  (forall k, k <= a -> b1 (m + k) = b2 (m + k)) ->
+  Vf K pa pc v b1 a m = Vf K pa pc v b2 a m.
+Proof. exact (@Vf_ext_local). Qed.
+Print Assumptions C03_vrr_locality_tight.
+
+(* 2. Three passes (the y pass runs on the x results, the z pass on the y results, channels
+   flattened as ay*(L+1)+ax exactly as in the model): for ANY sequence beta, entry (ax, ay, az)
+   at m = 0 with ax + ay + az <= L is Phi_0 of the product polynomial ... *)
+Theorem C03_vrr_cube_entry :
+  forall (F : Type) (K : Fops F), is_field K ->
+  forall (L : nat) (pax pcx pay pcy paz pcz twop : F) (beta : nat -> F) (ax ay az : nat),
+  ax + ay + az <= L ->
+  cget K (vrr_cube K L pax pcx pay pcy paz pcz twop beta) ax ay az
+  = Phi K beta 0 (P3 K pax pcx pay pcy paz pcz (fdiv K (f1 K) twop) ax ay az).
+Proof. exact (@vrr_cube_entry). Qed.
+Print Assumptions C03_vrr_cube_entry.
+
+(* ... whose value at every s is the product over the axes of the exact Gaussian moments. *)
+Theorem C03_product_polynomial_is_gaussian_moment :
+  forall (F : Type) (K : Fops F), is_field K ->
+  forall (pax pcx pay pcy paz pcz v : F) (ax ay az : nat) (s : F),
+  peval K (P3 K pax pcx pay pcy paz pcz v ax ay az) s
+  = fmul K (fmul K (Gs K pax pcx v s ax) (Gs K pay pcy v s ay)) (Gs K paz pcz v s az).
+Proof. exact (@P3_eval). Qed.
+Print Assumptions C03_product_polynomial_is_gaussian_moment.
+
+(* The model's vrr_prim is that cube with beta m = (2 pi/p) exp(-mu |AB|^2) F_m(p |PC|^2) taken
+   from the oracle fields of K (fapx = identity: the exact instance). *)
+Theorem C03_vrr_prim_entry :
+  forall (F : Type) (K : Fops F), is_field K ->
+  forall (L : nat) (Ax Ay Az Bx By Bz Cx Cy Cz alpha beta : F) (ax ay az : nat),
+  (forall x, fapx K x = x) -> ax + ay + az <= L ->
+  let p := fadd K alpha beta in
+  let Px := fdiv K (fadd K (fmul K alpha Ax) (fmul K beta Bx)) p in
+  let Py := fdiv K (fadd K (fmul K alpha Ay) (fmul K beta By)) p in
+  let Pz := fdiv K (fadd K (fmul K alpha Az) (fmul K beta Bz)) p in
+  cget K (vrr_prim K L Ax Ay Az Bx By Bz Cx Cy Cz alpha beta) ax ay az
+  = Phi K (boys_seq K Ax Ay Az Bx By Bz Cx Cy Cz alpha beta) 0
+      (P3 K (fsub K Px Ax) (fsub K Px Cx) (fsub K Py Ay) (fsub K Py Cy) (fsub K Pz Az) (fsub K Pz Cz)
+          (fdiv K (f1 K) (fmul K (fadd K (f1 K) (f1 K)) p)) ax ay az).
+Proof. exact (@vrr_prim_entry). Qed.
+Print Assumptions C03_vrr_prim_entry.
+
+(* 3. Horizontal transfer.  One chain (hstep / hiter) along any axis, inside the validity region
+   idx + b <= L of that axis (the row idx = L is set to zero by the model and never read):
+   entry = abstract transfer Hf = the binomial sum  sum_k C(b,k) AB^(b-k) T[idx + k]. *)
+Theorem C03_hiter_entry :
+  forall (F : Type) (K : Fops F) (L axis : nat) (ab : F) (b n : nat) (t : cube) (x y z : nat),
+  b <= n -> x <= L -> y <= L -> z <= L -> idx_ax axis x y z + b <= L ->
+  cget K (nth b (hiter K L axis ab n t) nil) x y z
+  = Hf K ab (fun i => cget_ax K axis t i x y z) b (idx_ax axis x y z).
+Proof. exact (@hiter_entry). Qed.
+Print Assumptions C03_hiter_entry.
+
+Theorem C03_hiter_binomial :
+  forall (F : Type) (K : Fops F), is_field K ->
+  forall (L axis : nat) (ab : F) (b n : nat) (t : cube) (x y z : nat),
+  b <= n -> x <= L -> y <= L -> z <= L -> idx_ax axis x y z + b <= L ->
+  cget K (nth b (hiter K L axis ab n t) nil) x y z
+  = Hbin K ab (fun i => cget_ax K axis t i x y z) b (idx_ax axis x y z).
+Proof. exact (@hiter_binomial). Qed.
+Print Assumptions C03_hiter_binomial.
+
+(* Pascal's coefficients are scipy.special.comb as modelled by FNum.fbinom (characteristic 0). *)
+Theorem C03_pascal_is_binomial :
+  forall (F : Type) (K : Fops F), is_field K -> (forall n, ofnat K (S n) <> f0 K) ->
+  forall b k, pasc K b k = fbinom K b k.
+Proof. exact (@pasc_fbinom). Qed.
+Print Assumptions C03_pascal_is_binomial.
+
+(* the three chains of hrr composed *)
+Theorem C03_hrr_entry :
+  forall (F : Type) (K : Fops F) (L lb : nat) (abx aby abz : F) (t : cube)
+         (bx by_ bz ax ay az : nat),
+  bx <= lb -> by_ <= lb -> bz <= lb -> ax + bx <= L -> ay + by_ <= L -> az + bz <= L ->
+  cget K (nth bz (nth by_ (nth bx (hrr K L lb abx aby abz t) nil) nil) nil) ax ay az
+  = H3 K abx aby abz (cget K t) bx by_ bz ax ay az.
+Proof. exact (@hrr_entry). Qed.
+Print Assumptions C03_hrr_entry.
+
+(* the transfer applied to the polynomials: Pab a b has, at every s, the value of the Gaussian
+   moment with BOTH factors, E_{v(1-s)} ((y + PA - s PC)^a (y + PB - s PC)^b), PB = PA + AB *)
+Theorem C03_two_centre_polynomial_is_gaussian_moment :
+  forall (F : Type) (K : Fops F), is_field K ->
+  forall (pa pc v ab : F) (b a : nat) (s : F),
+  peval K (Pab K pa pc v ab a b) s
+  = S3 K (fmul K v (fsub K (f1 K) s)) (fsub K pa (fmul K s pc))
+         (fsub K (fadd K pa ab) (fmul K s pc)) (f0 K) 0 0 a b.
+Proof. exact (@Pab_eval). Qed.
+Print Assumptions C03_two_centre_polynomial_is_gaussian_moment.
+
+(* composed statement for the cube: transferring the values Phi_m(P3) gives Phi_m of the product
+   of the two-centre polynomials *)
+Theorem C03_hrr_of_Phi :
+  forall (F : Type) (K : Fops F), is_field K ->
+  forall (pax pcx pay pcy paz pcz v abx aby abz : F) (beta : nat -> F) (m bx by_ bz ax ay az : nat),
+  H3 K abx aby abz (fun x y z => Phi K beta m (P3 K pax pcx pay pcy paz pcz v x y z)) bx by_ bz ax ay az
+  = Phi K beta m (P3ab K pax pcx pay pcy paz pcz v abx aby abz ax ay az bx by_ bz).
+Proof. exact (@H3_of_Phi). Qed.
+Print Assumptions C03_hrr_of_Phi.
+
+(* one_elec_correct: every entry [ma][ia][mb][ib] of the model of _compute_one_elec_integrals
+   (three passes per primitive pair, contraction BEFORE the transfer, transfer, component norms)
+   is the specified double sum over the primitives of Phi_0 of the polynomial prim_poly ... *)
+Theorem C03_one_elec_entry :
+  forall (F : Type) (K : Fops F), is_field K ->
+  forall (Cx Cy Cz : F) (sa sb : shell F) (ma ia mb ib : nat),
+  (forall x, fapx K x = x) ->
+  let ca := nth ia (comps_of sa) (0, 0, 0) in
+  let cb := nth ib (comps_of sb) (0, 0, 0) in
+  ma < nseg sa -> ia < length (comps_of sa) -> mb < nseg sb -> ib < length (comps_of sb) ->
+  fst (fst cb) <= s_l sb -> snd (fst cb) <= s_l sb -> snd cb <= s_l sb ->
+  fst (fst ca) + snd (fst ca) + snd ca + (fst (fst cb) + snd (fst cb) + snd cb) <= s_l sa + s_l sb ->
+  nth ib (nth mb (nth ia (nth ma (one_elec_point K Cx Cy Cz sa sb) nil) nil) nil) (f0 K)
+  = one_elec_spec K Cx Cy Cz sa sb ma ca mb cb.
+Proof. exact (@one_elec_entry). Qed.
+Print Assumptions C03_one_elec_entry.
+
+(* ... and prim_poly has, at every s, the value of the exact integrand: the product over the
+   axes of E_{v(1-s)} ((y + PA - s PC)^a (y + PB - s PC)^b). *)
+Theorem C03_prim_poly_is_integrand :
+  forall (F : Type) (K : Fops F), is_field K ->
+  forall (Cx Cy Cz Ax Ay Az Bx By Bz alpha beta : F) (ca cb : comp) (s : F),
+  let p := fadd K alpha beta in
+  let Px := fdiv K (fadd K (fmul K alpha Ax) (fmul K beta Bx)) p in
+  let Py := fdiv K (fadd K (fmul K alpha Ay) (fmul K beta By)) p in
+  let Pz := fdiv K (fadd K (fmul K alpha Az) (fmul K beta Bz)) p in
+  let v := fdiv K (f1 K) (fmul K (fadd K (f1 K) (f1 K)) p) in
+  peval K (prim_poly K Cx Cy Cz Ax Ay Az Bx By Bz alpha beta ca cb) s
+  = fmul K (fmul K
+      (S3 K (fmul K v (fsub K (f1 K) s)) (fsub K (fsub K Px Ax) (fmul K s (fsub K Px Cx)))
+          (fsub K (fsub K Px Bx) (fmul K s (fsub K Px Cx))) (f0 K) 0 0 (fst (fst ca)) (fst (fst cb)))
+      (S3 K (fmul K v (fsub K (f1 K) s)) (fsub K (fsub K Py Ay) (fmul K s (fsub K Py Cy)))
+          (fsub K (fsub K Py By) (fmul K s (fsub K Py Cy))) (f0 K) 0 0 (snd (fst ca)) (snd (fst cb))))
+      (S3 K (fmul K v (fsub K (f1 K) s)) (fsub K (fsub K Pz Az) (fmul K s (fsub K Pz Cz)))
+          (fsub K (fsub K Pz Bz) (fmul K s (fsub K Pz Cz))) (f0 K) 0 0 (snd ca) (snd cb)).
+Proof. exact (@prim_poly_eval). Qed.
+Print Assumptions C03_prim_poly_is_integrand.
+
+(* 4. The number Phi_m(P) depends only on the polynomial FUNCTION s |-> peval P s (a coefficient
+   list vanishing at 0, 1, 2, ... is zero; characteristic 0), so the spec does not depend on the
+   representative the recursion happens to build. *)
+Theorem C03_Phi_depends_on_values_only :
+  forall (F : Type) (K : Fops F), is_field K -> (forall n, ofnat K (S n) <> f0 K) ->
+  forall P Q : list F, (forall s, peval K P s = peval K Q s) ->
+  forall (beta : nat -> F) (m : nat), Phi K beta m P = Phi K beta m Q.
+Proof. exact (@Phi_unique). Qed.
+Print Assumptions C03_Phi_depends_on_values_only.
+
+(* spec level, per s: exchanging (a, A, alpha) with (b, B, beta) leaves the integrand unchanged *)
+Theorem C03_integrand_symmetric :
+  forall (F : Type) (K : Fops F), is_field K ->
+  forall (Cx Cy Cz Ax Ay Az Bx By Bz alpha beta : F) (ca cb : comp) (s : F),
+  peval K (prim_poly K Cx Cy Cz Ax Ay Az Bx By Bz alpha beta ca cb) s
+  = peval K (prim_poly K Cx Cy Cz Bx By Bz Ax Ay Az beta alpha cb ca) s.
+Proof. exact (@prim_poly_swap_eval). Qed.
+Print Assumptions C03_integrand_symmetric.
+
+Theorem C03_spec_symmetric :
+  forall (F : Type) (K : Fops F), is_field K -> (forall n, ofnat K (S n) <> f0 K) ->
+  forall (Cx Cy Cz : F) (sa sb : shell F) (ma : nat) (ca : comp) (mb : nat) (cb : comp),
+  one_elec_spec K Cx Cy Cz sa sb ma ca mb cb = one_elec_spec K Cx Cy Cz sb sa mb cb ma ca.
+Proof. exact (@one_elec_spec_swap). Qed.
+Print Assumptions C03_spec_symmetric.
+
+(* swap_sound: the computation with the shells exchanged returns the transposed block *)
+Theorem C03_swap_sound :
+  forall (F : Type) (K : Fops F), is_field K -> (forall n, ofnat K (S n) <> f0 K) ->
+  forall (Cx Cy Cz : F) (sa sb : shell F) (ma ia mb ib : nat),
+  (forall x, fapx K x = x) ->
+  let ca := nth ia (comps_of sa) (0, 0, 0) in
+  let cb := nth ib (comps_of sb) (0, 0, 0) in
+  ma < nseg sa -> ia < length (comps_of sa) -> mb < nseg sb -> ib < length (comps_of sb) ->
+  csum3 ca <= s_l sa -> csum3 cb <= s_l sb ->
+  nth ia (nth ma (nth ib (nth mb (one_elec_point K Cx Cy Cz sb sa) nil) nil) nil) (f0 K)
+  = nth ib (nth mb (nth ia (nth ma (one_elec_point K Cx Cy Cz sa sb) nil) nil) nil) (f0 K).
+Proof. exact (@swap_sound). Qed.
+Print Assumptions C03_swap_sound.
+
+(* PointChargeIntegral.construct_array_contraction, whichever branch of the L_a < L_b swap is
+   taken: entry [ma][ia][mb][ib] is the vector over the charges of -q times the specified value
+   for that charge position. *)
+Theorem C03_point_charge_block_entry :
+  forall (F : Type) (K : Fops F), is_field K -> (forall n, ofnat K (S n) <> f0 K) ->
+  forall (points : list (F * F * F * F)) (sa sb : shell F) (ma ia mb ib : nat),
+  (forall x, fapx K x = x) ->
+  let ca := nth ia (comps_of sa) (0, 0, 0) in
+  let cb := nth ib (comps_of sb) (0, 0, 0) in
+  ma < nseg sa -> ia < length (comps_of sa) -> mb < nseg sb -> ib < length (comps_of sb) ->
+  csum3 ca <= s_l sa -> csum3 cb <= s_l sb ->
+  nth ib (nth mb (nth ia (nth ma (point_charge_block K points sa sb) nil) nil) nil) nil
+  = map (fun pt : F * F * F * F =>
+           fmul K (fopp K (snd pt))
+             (one_elec_spec K (fst (fst (fst pt))) (snd (fst (fst pt))) (snd (fst pt)) sa sb ma ca mb cb))
+        points.
+Proof. exact (@point_charge_block_entry). Qed.
+Print Assumptions C03_point_charge_block_entry.
+
+(* the component hypothesis csum3 c <= l of the two theorems above holds for every shell that
+   uses the default Cartesian component order (contractions.py:379-385) *)
+Theorem C03_default_components_ok :
+  forall (F : Type) (s : shell F) (i : nat),
+  s_comps s = nil -> i < length (comps_of s) -> csum3 (nth i (comps_of s) (0, 0, 0)) <= s_l s.
+Proof. exact (@default_shell_comp_ok). Qed.
+Print Assumptions C03_default_components_ok.
+
+(* 5. nuclear_electron_attraction_integral: every entry is the sum over the charges of the
+   point_charge_integral entries (any i, j; no hypothesis). *)
+Theorem C03_nuclear_is_sum :
+  forall (F : Type) (K : Fops F) (points : list (F * F * F * F)) (basis : list (shell F))
+         (T : option (list (list F))) (i j : nat),
+  nth j (nth i (nuclear_attraction_integral K points basis T) nil) (f0 K)
+  = fsum K (nth j (nth i (point_charge_integral K points basis T) nil) nil).
+Proof. exact (@nuclear_is_sum). Qed.
+Print Assumptions C03_nuclear_is_sum.
+
+(* ---- the hypotheses are satisfiable: the executable instance QcK true (exact rationals, any
+   oracle closures) is a field of characteristic 0 with fapx = identity; a concrete p shell and
+   d shell at off-axis centres meet the index hypotheses of the block theorems ---- *)
+Example C03_hyp_field_Qc :
+  forall opi osqrt oexp oln oboys, is_field (QcK true opi osqrt oexp oln oboys).
+Proof. exact (QcK_field true). Qed.
+Print Assumptions C03_hyp_field_Qc.
+
+Example C03_hyp_char0_Qc :
+  forall opi osqrt oexp oln oboys (n : nat),
+  ofnat (QcK true opi osqrt oexp oln oboys) (S n) <> f0 (QcK true opi osqrt oexp oln oboys).
+Proof. exact QcK_char0. Qed.
+Print Assumptions C03_hyp_char0_Qc.
+
+Example C03_hyp_fapx_Qc :
+  forall opi osqrt oexp oln oboys x, fapx (QcK true opi osqrt oexp oln oboys) x = x.
+Proof. exact QcK_exact_apx. Qed.
+Print Assumptions C03_hyp_fapx_Qc.
+
+Example C03_hyp_shells :
+  0 < nseg ex_sa /\ 1 < length (comps_of ex_sa) /\ 0 < nseg ex_sb /\ 3 < length (comps_of ex_sb)
+  /\ csum3 (nth 1 (comps_of ex_sa) (0, 0, 0)) <= s_l ex_sa
+  /\ csum3 (nth 3 (comps_of ex_sb) (0, 0, 0)) <= s_l ex_sb.
+Proof. exact ex_hyps. Qed.
+Print Assumptions C03_hyp_shells.
